@@ -502,7 +502,11 @@ def canon_test(text_or_node, pol=True):
     """(canonical text, polarity) of a condition as the path events spell it: `not` unwrapped, `!=` / `is not` / `not in` read
     as the negated `==` / `is` / `in`, operands of commutative operators in canonical order."""
     from .core import cnorm
-    t = ast.parse(text_or_node, mode="eval").body if isinstance(text_or_node, str) else text_or_node
+    if isinstance(text_or_node, str):
+        from . import names as _names
+        t = _names.canon_consts(ast.parse(text_or_node, mode="eval")).body      # same folding as the analysed source gets
+    else:
+        t = text_or_node
     while isinstance(t, ast.UnaryOp) and isinstance(t.op, ast.Not):
         t, pol = t.operand, not pol
     if isinstance(t, ast.Compare) and len(t.ops) == 1 and isinstance(t.ops[0], (ast.NotEq, ast.IsNot, ast.NotIn)):
